@@ -436,15 +436,15 @@ def _mk(kind, mode):
 
 
 SUBS = [
-    Sub("ssi_int", _mk("ssi", "int"), req_case(True, "int"), quick=800, thorough=15000, rule="ssi.SSI_mpe, one order for all modes"),
-    Sub("ssi_list", _mk("ssi", "list"), req_case(True, "list"), quick=800, thorough=15000, rule="ssi.SSI_mpe, one order per mode"),
-    Sub("plscf_int", _mk("plscf", "int"), req_case(False, "int"), quick=800, thorough=15000, rule="plscf.pLSCF_mpe, one order for all modes"),
-    Sub("plscf_list", _mk("plscf", "list"), req_case(False, "list"), quick=800, thorough=15000, rule="plscf.pLSCF_mpe, one order per mode"),
-    Sub("ssi_find_min", _mk("ssi", "find_min"), req_case(True, "find_min"), quick=800, thorough=15000, rule="ssi.SSI_mpe(order='find_min'): lowest qualifying column, all parameters from it"),
-    Sub("plscf_find_min", _mk("plscf", "find_min"), req_case(False, "find_min"), quick=800, thorough=15000, rule="plscf.pLSCF_mpe(order='find_min'): lowest qualifying column, all parameters from it"),
-    Sub("class_wiring", judge_wiring, wiring_case(), quick=800, thorough=15000,
+    Sub("ssi_int", _mk("ssi", "int"), req_case(True, "int"), quick=800, thorough=30000, rule="ssi.SSI_mpe, one order for all modes"),
+    Sub("ssi_list", _mk("ssi", "list"), req_case(True, "list"), quick=800, thorough=30000, rule="ssi.SSI_mpe, one order per mode"),
+    Sub("plscf_int", _mk("plscf", "int"), req_case(False, "int"), quick=800, thorough=30000, rule="plscf.pLSCF_mpe, one order for all modes"),
+    Sub("plscf_list", _mk("plscf", "list"), req_case(False, "list"), quick=800, thorough=30000, rule="plscf.pLSCF_mpe, one order per mode"),
+    Sub("ssi_find_min", _mk("ssi", "find_min"), req_case(True, "find_min"), quick=800, thorough=30000, rule="ssi.SSI_mpe(order='find_min'): lowest qualifying column, all parameters from it"),
+    Sub("plscf_find_min", _mk("plscf", "find_min"), req_case(False, "find_min"), quick=800, thorough=30000, rule="plscf.pLSCF_mpe(order='find_min'): lowest qualifying column, all parameters from it"),
+    Sub("class_wiring", judge_wiring, wiring_case(), quick=800, thorough=30000,
         rule="SSIcov.mpe / pLSCF.mpe on synthetic result tables installed in the algorithm: same model; checks what the class hands to the extraction function and stores afterwards"),
-    Sub("classes", judge_class, class_case(), quick=120, thorough=2000, rule="SSIcov/SSIdat/pLSCF.mpe through SingleSetup on noisy data: same model applied to result.*_poles"),
+    Sub("classes", judge_class, class_case(), quick=120, thorough=4000, rule="SSIcov/SSIdat/pLSCF.mpe through SingleSetup on noisy data: same model applied to result.*_poles"),
 ]
 
 
